@@ -104,6 +104,11 @@ def net_seams(lines=("server", "client", "pool")):
     if "client" in lines and "client-lines" not in _done:
         mods.append(jc)
         _done["client-lines"] = True
+    if "jsonclass" in lines and "jsonclass-lines" not in _done:
+        import jsonrpclib.jsonclass as jcl
+
+        mods.append(jcl)
+        _done["jsonclass-lines"] = True
     if mods:
         core.instrument_modules(mods)
     return jc, js
